@@ -33,7 +33,7 @@ RULES["C06"] = ("cases: (a,x,x2) with a = k/2, k from shapes the tests use / [1,
 PROPS["C06"] = {
     "level": "exploration",
     "quick": shards(8, "TestC06", 4000, floor=2000),
-    "thorough": shards(16, "TestC06", 60000, floor=20000),
+    "thorough": shards(14, "TestC06", 60000, floor=20000) + [S("FuzzIgamc", fuzz="FuzzIgamc", fuzztime=60, parallel=4, floor=1000, weight=4, timeout=600)],
     "assumptions": ["reference = finite-sum closed form in 320-bit big.Float, validated against mpmath (600 points) on every run",
                     "math.Erfc trusted (<= 1 ulp)", "x > 20a+200 is outside the stated range and not generated"],
 }
@@ -86,7 +86,9 @@ PROPS["C04"] = {
     "quick": shards(6, "TestC04", 300, floor=100) + [S("TestC04", 300, mode="rank", floor=100), S("TestC04", 200, mode="maurer", floor=50)]
              + [S("TestC04Exhaustive", floor=1000, env={"VERIF_LO": 1, "VERIF_HI": 12, "VERIF_PART": i, "VERIF_PARTS": 4}) for i in range(4)],
     "thorough": shards(8, "TestC04", 2500, floor=800, timeout=3400) + shards(2, "TestC04", 2000, mode="rank", floor=500) + shards(2, "TestC04", 1500, mode="maurer", floor=300)
-             + [S("TestC04Exhaustive", floor=10000, env={"VERIF_LO": 1, "VERIF_HI": 16, "VERIF_PART": i, "VERIF_PARTS": 8}, timeout=3400) for i in range(8)],
+             + [S("TestC04Exhaustive", floor=10000, env={"VERIF_LO": 1, "VERIF_HI": 16, "VERIF_PART": i, "VERIF_PARTS": 8}, timeout=3400) for i in range(8)]
+             + [S("FuzzLinearComplexity", fuzz="FuzzLinearComplexity", fuzztime=90, parallel=6, floor=1000, weight=6, timeout=600),
+                S("FuzzRank", fuzz="FuzzRank", fuzztime=60, parallel=4, floor=1000, weight=4, timeout=600)],
     "exhaustive": {"quick": "all 2^m one-block inputs of LinearComplexityProto for m = 1..12", "thorough": "all 2^m one-block inputs of LinearComplexityProto for m = 1..16"},
     "assumptions": ["reference statistics validated on the annex known answers (e-expansion) on every run",
                     "linear-complexity class probabilities are the printed decimals of the standard (0.010417 ... 0.020833)"],
@@ -112,7 +114,8 @@ RULES["C19"] = ("cases: transform (N = 2^p, p in 1..12 mostly, 13..15 (20 thorou
 PROPS["C19"] = {
     "level": "exploration",
     "quick": shards(6, "TestC19", 700, floor=200) + [S("TestC19Sweep", floor=100)],
-    "thorough": shards(15, "TestC19", 5000, floor=1500, timeout=3400) + [S("TestC19Sweep", floor=100, env={"VERIF_HI": 70000}, timeout=3400)],
+    "thorough": shards(15, "TestC19", 5000, floor=1500, timeout=3400) + [S("TestC19Sweep", floor=100, env={"VERIF_HI": 70000}, timeout=3400)]
+                + [S("FuzzFFTNew", fuzz="FuzzFFTNew", fuzztime=60, parallel=4, floor=1000, weight=4, timeout=600)],
     "assumptions": ["fft.New(2^27) itself is not constructed (3 GB); 2^27+1 and above are checked by argument only",
                     "a panic on a wrong-length slice counts as 'refused' (the property says refused rather than computed)"],
 }
@@ -274,7 +277,7 @@ PROPS["C13"] = {
                     "file names with commas/newlines are outside the property (the CSV would be unparseable)", "the expected value is by definition the library's exported function (the report is under test, not the statistic)"],
 }
 
-RULES["C20"] = ("runs of the built rdgen binary from a fresh scratch working directory: s in 1..40 (300 thorough), n in {20000, 10^6, 8*k for k in 1..10000} (two 10^8 runs in thorough), output directory absent (documented default target/data) / relative / "
+RULES["C20"] = ("runs of the built rdgen binary from a fresh scratch working directory: s in 1..40 (300 thorough), n in {20000, 10^6, 8*k for k in 1..10000} (two 10^8 runs in thorough), output directory absent (documented default target/data) / relative / reused (a quarter of the cases first run rdgen into the same directory with another s and n: the files must end up with exactly the new size) / "
                 "./x/b/c not existing / absolute / pre-existing with foreign files / path with '..'; NumCPU (= writer goroutines) 1, 3 or 16 via taskset, GOMAXPROCS 0/1/2. oracle: exit 0; a census of the whole scratch directory finds exactly random0.bin..random(s-1).bin "
                 "in the requested directory (foreign files untouched, nothing anywhere else), each n/8 bytes, pairwise different and not all-zero when n >= 128; for n in {20000,10^6,10^8} the detector's counting pass (toBeTestFileNum through the shim) "
                 "reports (s, n). non-trivial: -o given and s > 1. distinct: hash of the case JSON.")
